@@ -38,12 +38,23 @@ func execBW(in In, em *Emitter) {
 		for i := 0; i < len(s)*8/n; i++ {
 			get = append(get, int64(bw.Get(s, i)))
 		}
-		trunc := make([][]int64, 0, len(ws)+1)
+		// The strings ToStr returns are looked at only after the caller has reused its word slice: a Go string is a
+		// value, it cannot change once returned.
+		wsJ := bytesJ(ws)
+		truncS := make([]string, 0, len(ws)+1)
 		for k := 0; k <= len(ws); k++ {
-			trunc = append(trunc, strJ(bw.ToStr(ws[:k])))
+			truncS = append(truncS, bw.ToStr(ws[:k]))
+		}
+		whole := bw.ToStr(ws)
+		for i := range ws {
+			ws[i] ^= 0xff
+		}
+		trunc := make([][]int64, 0, len(ws)+1)
+		for _, t := range truncS {
+			trunc = append(trunc, strJ(t))
 		}
 		calls = 2 + len(get) + len(trunc)
-		o = J{"words": bytesJ(ws), "get": get, "tostr": strJ(bw.ToStr(ws)), "trunc": trunc}
+		o = J{"words": wsJ, "get": get, "tostr": strJ(whole), "trunc": trunc}
 	})
 	em.Emit("bw", J{"in": in.m, "out": o, "abn": abn})
 	em.Calls(calls)
@@ -56,7 +67,11 @@ func execBWToStr(in In, em *Emitter) {
 	abn := guard(func() {
 		bw := bitword.BitWord[n]
 		s := bw.ToStr(ws)
-		o = J{"s": strJ(s), "back": bytesJ(bw.FromStr(s))}
+		back := bytesJ(bw.FromStr(s))
+		for i := range ws { // the caller reuses its word slice; the string it got stays what it was
+			ws[i] ^= 0xff
+		}
+		o = J{"s": strJ(s), "back": back}
 	})
 	em.Emit("bwtostr", J{"in": in.m, "out": o, "abn": abn})
 	em.Calls(2)
@@ -103,7 +118,13 @@ func execBWStrs(in In, em *Emitter) {
 		for i, w := range wss {
 			wj[i] = bytesJ(w)
 		}
-		o = J{"words": wj, "back": strsJ(bw.ToStrs(wss))}
+		back := bw.ToStrs(wss)
+		for _, w := range wss { // (as in execBW: the caller reuses its word slices)
+			for i := range w {
+				w[i] ^= 0xff
+			}
+		}
+		o = J{"words": wj, "back": strsJ(back)}
 	})
 	em.Emit("bwstrs", J{"in": in.m, "out": o, "abn": abn})
 	em.Calls(2)
@@ -701,11 +722,35 @@ func genC16(g *Gen) {
 				}
 			}
 		}
+		// where a split of the n keys (or of the n-1 pairs) into 2..8 and 16 equal parts has its joints
+		var joints []int64
+		for _, parts := range []int64{2, 3, 4, 5, 6, 7, 8, 16} {
+			for k := int64(1); k < parts; k++ {
+				for _, tot := range []int64{int64(n), int64(n) - 1} {
+					for _, j := range []int64{k * tot / parts, (k*tot + parts - 1) / parts} {
+						joints = append(joints, j)
+						for d := int64(-2); d <= 1; d++ {
+							if p := j + d; p >= 0 && p < int64(n)-1 {
+								idxs = append(idxs, p)
+							}
+						}
+					}
+				}
+			}
+		}
 		for k := 0; k < 40; k++ {
 			idxs = append(idxs, r.Int63n(int64(n)-1))
 		}
 		g.Case("fdbbig", J{"n": n, "stride": stride, "idxs": idxs})
 		var qs [][]int64
+		for k := 0; k < 12; k++ { // short ranges across such joints
+			j := joints[r.Intn(len(joints))]
+			s0 := j - 1 - int64(r.Intn(4))
+			e0 := j + 1 + int64(r.Intn(4))
+			if s0 >= 0 && e0 <= int64(n) && e0-s0 >= 2 {
+				qs = append(qs, []int64{s0, e0, int64(1 + r.Intn(3))})
+			}
+		}
 		for k := 0; k < 14; k++ {
 			s0 := int64(r.Intn(8))
 			e0 := s0 + 2 + int64(r.Intn(6))
